@@ -9,7 +9,7 @@ The full statement — "with `src[0..slen)` mapped and declared and NOTHING else
 access" — is FALSE of the model, as it is of the C: the loop header is `while (*src && slen)`, the cell is read before
 the counter is tested, so an array of exactly `slen` non-NUL cells makes the call read `src[slen]`:
 
-    theorem wcase_s_C02 (hrw : src ≠ 0 → RW st src slen) : Runs (wcase_s f src slen b) st        -- false: `…_witness`
+    theorem wcase_s_C02 (hrw : src ≠ 0 → RW st src slen) : Runs (wcase_s rb f src slen b) st        -- false: `…_witness`
 
 * `wcase_s_C02_partial`: under the one extra hypothesis the proof forces — the cell `src[slen]` is readable too —
   for ALL arguments, all contents and every cell mapping `f`: the call returns, no stray read, no stray write, every
@@ -22,12 +22,14 @@ the counter is tested, so an array of exactly `slen` non-NUL cells makes the cal
 namespace SafeC.Props.C02
 open SafeC Gen
 
-theorem Acc_wcaseLoop (f : Nat → Nat) (slen src : Nat) :
-    Acc (In src (slen+1)) (In src slen) (wcaseLoop f slen src) (fun _ => True) := by
+theorem Acc_wcaseLoop (rb : Bool) (f : Nat → Nat) (slen src : Nat) :
+    Acc (In src (slen+1)) (In src slen) (wcaseLoop rb f slen src) (fun _ => True) := by
   induction slen generalizing src with
   | zero =>
     unfold wcaseLoop
-    exact Acc.bind (Acc.loadP src ⟨Nat.le_refl _, by omega⟩) (fun _ _ => Acc.pure _ trivial)
+    split
+    · exact Acc.bind (Acc.loadP src ⟨Nat.le_refl _, by omega⟩) (fun _ _ => Acc.pure _ trivial)
+    · exact Acc.pure _ trivial
   | succ k ih =>
     unfold wcaseLoop
     have hin : In src (k+1+1) src := ⟨Nat.le_refl _, by omega⟩
@@ -38,8 +40,8 @@ theorem Acc_wcaseLoop (f : Nat → Nat) (slen src : Nat) :
       refine Acc.bind (Acc.storeP src _ ⟨Nat.le_refl _, by omega⟩) (fun _ _ => ?_)
       exact (ih (src+1)).mono (fun a ⟨h1, h2⟩ => ⟨by omega, by omega⟩) (fun a ⟨h1, h2⟩ => ⟨by omega, by omega⟩)
 
-theorem Acc_wcase_s (f : Nat → Nat) (src slen : Nat) (b : Bos) :
-    Acc (fun a => src ≠ 0 ∧ In src (slen+1) a) (fun a => src ≠ 0 ∧ In src slen a) (wcase_s f src slen b) (fun _ => True) := by
+theorem Acc_wcase_s (rb : Bool) (f : Nat → Nat) (src slen : Nat) (b : Bos) :
+    Acc (fun a => src ≠ 0 ∧ In src (slen+1) a) (fun a => src ≠ 0 ∧ In src slen a) (wcase_s rb f src slen b) (fun _ => True) := by
   unfold wcase_s
   split
   · exact Acc.pure _ trivial
@@ -49,8 +51,8 @@ theorem Acc_wcase_s (f : Nat → Nat) (src slen : Nat) (b : Bos) :
   split
   · exact Acc_failS _
   have body : Acc (fun a => src ≠ 0 ∧ In src (slen+1) a) (fun a => src ≠ 0 ∧ In src slen a)
-      (do wcaseLoop f slen src; pure EOK : Prog Nat) (fun _ => True) :=
-    Acc.bind ((Acc_wcaseLoop f slen src).mono (fun a h => ⟨hd, h⟩) (fun a h => ⟨hd, h⟩)) (fun _ _ => Acc.pure _ trivial)
+      (do wcaseLoop rb f slen src; pure EOK : Prog Nat) (fun _ => True) :=
+    Acc.bind ((Acc_wcaseLoop rb f slen src).mono (fun a h => ⟨hd, h⟩) (fun a h => ⟨hd, h⟩)) (fun _ _ => Acc.pure _ trivial)
   dsimp only
   split
   · exact body
@@ -60,11 +62,11 @@ theorem Acc_wcase_s (f : Nat → Nat) (src slen : Nat) (b : Bos) :
 
 /-- the shared text, every mapping, ALL arguments: with `src[0..slen)` declared and `src[slen]` readable, the call
 returns, records no stray access and changes nothing outside `src[0..slen)` -/
-theorem wcase_s_C02_partial (f : Nat → Nat) (src slen : Nat) (b : Bos) (st : St)
+theorem wcase_s_C02_partial (rb : Bool) (f : Nat → Nat) (src slen : Nat) (b : Bos) (st : St)
     (hrw : src ≠ 0 → RW st src slen) (hx : src ≠ 0 → st.mapped (src+slen) = true ∧ st.rd (src+slen) = true) :
-    ∃ r st', exec (wcase_s f src slen b) st = .ok (r, st') ∧ NoStray st st' ∧
+    ∃ r st', exec (wcase_s rb f src slen b) st = .ok (r, st') ∧ NoStray st st' ∧
       ∀ a, ¬ (src ≠ 0 ∧ In src slen a) → st'.data a = st.data a := by
-  obtain ⟨r, st', he, _, hst, hfr⟩ := (Acc_wcase_s f src slen b).sound st
+  obtain ⟨r, st', he, _, hst, hfr⟩ := (Acc_wcase_s rb f src slen b).sound st
     (fun a ⟨hs, h1, h2⟩ => by
       by_cases ha : a < src + slen
       · exact (RW_of st src slen (hrw hs)).1 a ⟨h1, ha⟩
@@ -78,14 +80,14 @@ theorem wcslwr_s_C02_partial (cfg : Cfg) (src slen : Nat) (b : Bos) (st : St)
     (hrw : src ≠ 0 → RW st src slen) (hx : src ≠ 0 → st.mapped (src+slen) = true ∧ st.rd (src+slen) = true) :
     ∃ r st', exec (wcslwr_s cfg src slen b) st = .ok (r, st') ∧ NoStray st st' ∧
       ∀ a, ¬ (src ≠ 0 ∧ In src slen a) → st'.data a = st.data a :=
-  wcase_s_C02_partial _ src slen b st hrw hx
+  wcase_s_C02_partial _ _ src slen b st hrw hx
 
 /-- **wcsupr_s** -/
 theorem wcsupr_s_C02_partial (cfg : Cfg) (src slen : Nat) (b : Bos) (st : St)
     (hrw : src ≠ 0 → RW st src slen) (hx : src ≠ 0 → st.mapped (src+slen) = true ∧ st.rd (src+slen) = true) :
     ∃ r st', exec (wcsupr_s cfg src slen b) st = .ok (r, st') ∧ NoStray st st' ∧
       ∀ a, ¬ (src ≠ 0 ∧ In src slen a) → st'.data a = st.data a :=
-  wcase_s_C02_partial _ src slen b st hrw hx
+  wcase_s_C02_partial _ _ src slen b st hrw hx
 
 /-- the hypotheses of the partial theorems are satisfiable: three cells declared, the fourth readable -/
 example : ∃ st : St, ((100 : Nat) ≠ 0 → RW st 100 3) ∧ ((100 : Nat) ≠ 0 → st.mapped (100+3) = true ∧ st.rd (100+3) = true) :=
@@ -99,14 +101,83 @@ def witnessSt : St :=
     wr := fun a => decide (100 ≤ a ∧ a < 102) }
 
 /-- the full statement fails: `RW witnessSt 100 2` holds, the call faults reading `src[slen]` -/
-theorem wcslwr_s_C02_witness : RW witnessSt 100 2 ∧ faultOf (exec (wcslwr_s {} 100 2 none) witnessSt) = some (.read 102) := by
+theorem wcslwr_s_C02_witness : RW witnessSt 100 2 ∧ faultOf (exec (wcslwr_s { fixWcaseOrder := false } 100 2 none) witnessSt) = some (.read 102) := by
   refine ⟨fun i hi => ?_, by decide⟩
   have : i = 0 ∨ i = 1 := by omega
   rcases this with h | h <;> subst h <;> decide
 
-theorem wcsupr_s_C02_witness : RW witnessSt 100 2 ∧ faultOf (exec (wcsupr_s {} 100 2 (some 8)) witnessSt) = some (.read 102) := by
+theorem wcsupr_s_C02_witness : RW witnessSt 100 2 ∧ faultOf (exec (wcsupr_s { fixWcaseOrder := false } 100 2 (some 8)) witnessSt) = some (.read 102) := by
   refine ⟨fun i hi => ?_, by decide⟩
   have : i = 0 ∨ i = 1 := by omega
   rcases this with h | h <;> subst h <;> decide
+
+/-! ## the repaired loop order (`slen && *src`, 7997192 / c770409): the FULL statement, no extra readable cell -/
+
+theorem Acc_wcaseLoop_fixed (f : Nat → Nat) (slen src : Nat) :
+    Acc (In src slen) (In src slen) (wcaseLoop false f slen src) (fun _ => True) := by
+  induction slen generalizing src with
+  | zero =>
+    unfold wcaseLoop
+    exact Acc.pure _ trivial
+  | succ k ih =>
+    unfold wcaseLoop
+    have hin : In src (k+1) src := ⟨Nat.le_refl _, by omega⟩
+    refine Acc.bind (Acc.loadP src hin) (fun c _ => ?_)
+    split
+    · exact Acc.pure _ trivial
+    · refine Acc.bind (Acc.loadP src hin) (fun c1 _ => ?_)
+      refine Acc.bind (Acc.storeP src _ hin) (fun _ _ => ?_)
+      exact (ih (src+1)).mono (fun a ⟨h1, h2⟩ => ⟨by omega, by omega⟩) (fun a ⟨h1, h2⟩ => ⟨by omega, by omega⟩)
+
+theorem Acc_wcase_s_fixed (f : Nat → Nat) (src slen : Nat) (b : Bos) :
+    Acc (fun a => src ≠ 0 ∧ In src slen a) (fun a => src ≠ 0 ∧ In src slen a) (wcase_s false f src slen b) (fun _ => True) := by
+  unfold wcase_s
+  split
+  · exact Acc.pure _ trivial
+  split
+  · exact Acc_failS _
+  rename_i hd
+  split
+  · exact Acc_failS _
+  have body : Acc (fun a => src ≠ 0 ∧ In src slen a) (fun a => src ≠ 0 ∧ In src slen a)
+      (do wcaseLoop false f slen src; pure EOK : Prog Nat) (fun _ => True) :=
+    Acc.bind ((Acc_wcaseLoop_fixed f slen src).mono (fun a h => ⟨hd, h⟩) (fun a h => ⟨hd, h⟩)) (fun _ _ => Acc.pure _ trivial)
+  dsimp only
+  split
+  · exact body
+  · split
+    · exact Acc_failS _
+    · exact body
+
+/-- the shared text with the repaired loop, every mapping, ALL arguments: with exactly `src[0..slen)` declared (nothing behind
+it needs to be mapped) the call returns, records no stray access and changes nothing outside `src[0..slen)` -/
+theorem wcase_s_C02_fixed (f : Nat → Nat) (src slen : Nat) (b : Bos) (st : St) (hrw : src ≠ 0 → RW st src slen) :
+    ∃ r st', exec (wcase_s false f src slen b) st = .ok (r, st') ∧ NoStray st st' ∧
+      ∀ a, ¬ (src ≠ 0 ∧ In src slen a) → st'.data a = st.data a := by
+  obtain ⟨r, st', he, _, hst, hfr⟩ := (Acc_wcase_s_fixed f src slen b).sound st
+    (fun a ⟨hs, h⟩ => (RW_of st src slen (hrw hs)).1 a h)
+    (fun a ⟨hs, h⟩ => (RW_of st src slen (hrw hs)).2 a h)
+  exact ⟨r, st', he, hst, hfr⟩
+
+/-- **wcslwr_s, current tree**: C02 outright -/
+theorem wcslwr_s_C02_fixed (cfg : Cfg) (hfx : cfg.fixWcaseOrder = true) (src slen : Nat) (b : Bos) (st : St)
+    (hrw : src ≠ 0 → RW st src slen) :
+    ∃ r st', exec (wcslwr_s cfg src slen b) st = .ok (r, st') ∧ NoStray st st' ∧
+      ∀ a, ¬ (src ≠ 0 ∧ In src slen a) → st'.data a = st.data a := by
+  unfold wcslwr_s; rw [hfx]; exact wcase_s_C02_fixed _ src slen b st hrw
+
+/-- **wcsupr_s, current tree**: C02 outright -/
+theorem wcsupr_s_C02_fixed (cfg : Cfg) (hfx : cfg.fixWcaseOrder = true) (src slen : Nat) (b : Bos) (st : St)
+    (hrw : src ≠ 0 → RW st src slen) :
+    ∃ r st', exec (wcsupr_s cfg src slen b) st = .ok (r, st') ∧ NoStray st st' ∧
+      ∀ a, ¬ (src ≠ 0 ∧ In src slen a) → st'.data a = st.data a := by
+  unfold wcsupr_s; rw [hfx]; exact wcase_s_C02_fixed _ src slen b st hrw
+
+/-- non-vacuity: two cells declared, the cell behind them UNMAPPED -/
+example : ∃ st : St, ((100 : Nat) ≠ 0 → RW st 100 2) ∧ st.mapped 102 = false :=
+  ⟨{ data := fun _ => 0x47, mapped := fun a => decide (100 ≤ a ∧ a < 102), rd := fun a => decide (100 ≤ a ∧ a < 102),
+     wr := fun a => decide (100 ≤ a ∧ a < 102) },
+   fun _ i hi => ⟨by simp; omega, by simp; omega, by simp; omega⟩, by simp⟩
+
 
 end SafeC.Props.C02
